@@ -57,7 +57,7 @@ add("C19", "exploration",
     "history monitor with stable-subset containment oracle under adversarial interleaving", "E1", "DESIGN.md 7/C19")
 
 add("C02", "exploration",
-    "timed histories judged by an interval model built from client-side monotonic brackets (decisive-before / decisive-after / don't-care), every data type and every command family probing a dead or live key; the sweeper parked between its collect and delete phase while the key is re-created / renamed / persisted (sync point); expiry index vs stored deadline agreement at quiescent points followed to the client boundary",
+    "timed histories judged by an interval model built from client-side monotonic brackets (decisive-before / decisive-after / don't-care), every data type and every command family probing a dead or live key; the sweeper parked between its collect and delete phase while the key is re-created / renamed / persisted (sync point); expiry index vs stored deadline agreement at quiescent points followed to the client boundary; deadlines across save/kill/restart; a mass expiry that keeps the sweeper inside each shard's write lock for 10-20 ms while thousands of just-expired keys are probed",
     "trusted: CLOCK_MONOTONIC on one host for client and server, the bracket arithmetic, the reference model; probes that fall inside the ambiguity bracket are not judged (counted as don't-care in evidence)",
     "timed history monitor with interval oracle + sync-point injected sweeper interleavings + hooked index invariant (+ ThreadSanitizer workload in thorough)", "E1+E2+E3+E5", "DESIGN.md 7/C02")
 add("C05", "exploration",
@@ -73,7 +73,7 @@ add("C09", "exploration",
     "trusted: the canonical dump (type-specific full reads) as observation of the dataset; CLOCK_REALTIME/steady clock of one host",
     "round-trip differential monitor over save / kill / restart cycles", "E1", "DESIGN.md 7/C09")
 add("C10", "fault_enumeration",
-    "every step of a save (open, each write, flush, rename) enumerated with an injected I/O error (SAVE and BGSAVE) and a process abort; the previous dump must stay byte-identical / be what a restarted server loads, later saves must work, no temporary file may remain; the save thread is parked at sync points between per-key steps while clients replace/grow/empty/delete/expire/rename the key; free-running stress with uniquely versioned keys; loader on truncated/corrupt files in-process",
+    "every step of a save (open, each write, flush, rename) enumerated with an injected I/O error (SAVE and BGSAVE) and a process abort; the previous dump must stay byte-identical / be what a restarted server loads, later saves must work, no temporary file may remain; the save thread is parked at sync points between per-key steps while clients replace/grow/empty/delete/expire/rename the key; free-running stress with uniquely versioned keys and a 4000-member sorted set that is only ever re-scored (every dump: each member exactly once, with a score it had); SHUTDOWN and a released parked BGSAVE finishing side by side; SAVE loop beside the auto-save rule; loader on truncated/corrupt files in-process",
     "trusted: the hooked fault points wrap every I/O call of the save path (open, write_all calls, flush, rename); power-loss semantics below the file-system API (fsync ordering) are out of reach",
     "fail-point / abort-point / OS-level write-fault enumeration + sync-point interleavings + versioned-value snapshot consistency oracle (+ ThreadSanitizer workload in thorough)", "E1+E3+E4+E5", "DESIGN.md 7/C10")
 add("C11", "exploration",
